@@ -162,6 +162,10 @@ func (m *Mailbox) encodeEnvelopWithLength(envelop vivid.Envelop) ([]byte, error)
 	if err != nil {
 		return nil, err
 	}
+	// 接收方会拒绝超过 maxFrameLength 的帧，发送它只会占用连接并被对端丢弃：在发送侧即视为编码失败（进入死信）
+	if len(data) > maxFrameLength {
+		return nil, vivid.ErrorInvalidMessageLength.WithMessage(fmt.Sprintf("length: %d", len(data)))
+	}
 	lengthBuf := make([]byte, 4)
 	binary.BigEndian.PutUint32(lengthBuf, uint32(len(data)))
 	return append(lengthBuf, data...), nil
